@@ -497,9 +497,19 @@ def path_returns(fnode, max_paths=64):
         for i, st in enumerate(stmts):
             if isinstance(st, ast.Expr) and isinstance(st.value, ast.Constant):
                 continue
+            if isinstance(st, ast.Assign) and len(st.targets) == 1 and isinstance(st.targets[0], ast.Name) and isinstance(st.value, ast.IfExp):
+                # t = a if c else b   ==   if c: t = a  else: t = b
+                mk = lambda v: ast.Assign(targets=st.targets, value=v, lineno=st.lineno, col_offset=0)
+                split = ast.If(test=st.value.test, body=[mk(st.value.body)], orelse=[mk(st.value.orelse)], lineno=st.lineno, col_offset=0)
+                return run([split] + stmts[i + 1:], conds, env)
             if isinstance(st, ast.Assign) and len(st.targets) == 1 and isinstance(st.targets[0], ast.Name):
                 env = dict(env)
                 env[st.targets[0].id] = inline(st.value, env, depth=1)
+                continue
+            if isinstance(st, ast.AugAssign) and isinstance(st.target, ast.Name):
+                env = dict(env)
+                cur = env.get(st.target.id, ast.Name(id=st.target.id, ctx=ast.Load()))
+                env[st.target.id] = ast.BinOp(left=cur, op=st.op, right=inline(st.value, env, depth=1))
                 continue
             if isinstance(st, ast.Return):
                 out.append((list(conds), inline(st.value, env, depth=1) if st.value is not None else None))
